@@ -24,6 +24,18 @@
 (*                       "whole"  a Write that does not fit the remaining  *)
 (*                                capacity is rejected whole: (0, error)   *)
 (*                       "prefix" ... is cut: (cap, error)  -- short write *)
+(*                       "edge"   a Write SHORTER than the remaining       *)
+(*                                capacity succeeds; the Write that        *)
+(*                                reaches or exceeds it accepts the        *)
+(*                                remaining cap bytes and reports the      *)
+(*                                error: when the Write is exactly as long *)
+(*                                as the capacity this is (len(p), error): *)
+(*                                an error TOGETHER WITH A FULL COUNT,     *)
+(*                                which io.Writer allows (a disk that      *)
+(*                                fills up with this very Write, a failed  *)
+(*                                sync after the data went out).  The      *)
+(*                                capacity is 0 afterwards: every later    *)
+(*                                Write fails (sticky by construction)     *)
 (*                       "silent" every Write accepts at most cap bytes    *)
 (*                                and reports (cap, nil) for a longer one: *)
 (*                                a short write without error, which       *)
@@ -59,6 +71,24 @@
 (*              (a plausible optimisation): TLC then reports               *)
 (*              CallStartsFresh, HealthyAfterFailure, FirstError and       *)
 (*              NoFailEqualsString violated in the second call.            *)
+(*                                                                         *)
+(*              A later call of the history may also go to the SAME writer *)
+(*              (ShareChoices contains TRUE; sess.shared): two modules     *)
+(*              written to one stream, a retry on the same file.  The      *)
+(*              writer keeps its remaining capacity and, if it failed      *)
+(*              before, its failed flag (w.failed0); the observer, the     *)
+(*              positions of String() and all laws are per call: the       *)
+(*              count is the count of THIS call, the first error is the    *)
+(*              first error of THIS call (a sticky writer that failed in   *)
+(*              the call before fails again and the new error value is the *)
+(*              one to return), and a recovering writer into which the     *)
+(*              second module fits must get all of it.  PerWriterWrapper = *)
+(*              TRUE is the deviation "the wrapper is kept per destination *)
+(*              writer" (count and latch continue where the last call to   *)
+(*              that writer stopped): invisible with one writer per call;  *)
+(*              with a shared writer CountExact, FirstError,               *)
+(*              CallStartsFresh, HealthyAfterFailure, NoFailEqualsString   *)
+(*              are violated in the later call (WriterShared.cfg).         *)
 (*                                                                         *)
 (* The writer's INTERFACE SET and the routes of a print (round 7).          *)
 (*   w.ifs      the optional interfaces the caller's writer has beside     *)
@@ -117,6 +147,12 @@
 (*   CountAccepted  FALSE: size += bytes offered instead of bytes accepted *)
 (*   KeepFirstError TRUE : err is assigned only while it is nil (another   *)
 (*                  way to keep the first error without the early return)  *)
+(*   LatchOn        "err" as written: the error value decides.  "short":   *)
+(*                  the wrapper takes a SHORT COUNT for the failure signal *)
+(*                  (err is stored only if n < len): right for "whole" and *)
+(*                  "prefix" failures that cut the Write, wrong for an     *)
+(*                  error with a full count ("edge" writer, exact fit):    *)
+(*                  FirstError and NoWriteAfterFailure violated            *)
 (*                                                                         *)
 (* Properties (io.WriterTo contract as stated by C19):                     *)
 (*   CountExact          returned n = bytes the writer accepted            *)
@@ -148,6 +184,7 @@ CONSTANTS MaxChunks, UnitSizes,   \* enumeration bounds: prints per call, set of
           Route, MaxWrite,        \* "fmt" (as written) | "direct"; piece limit of the direct route (0 = none)
           PieceCount, LatchBy, CachedViews,   \* "piece" | "running"; "test" | "redirect"; see header
           LatchError, CountAccepted, KeepFirstError,
+          LatchOn,                \* "err" (as written) | "short": see header
           Modes,                  \* subset of {"never", "whole", "prefix", "silent"}
           Pieces,                 \* set of re-chunking piece sizes, 0 = none
           GivenFile,              \* "" or the name of an NDJSON file, one module per line: [c |-> sizes of its prints,
@@ -155,7 +192,9 @@ CONSTANTS MaxChunks, UnitSizes,   \* enumeration bounds: prints per call, set of
                                   \*   p |-> re-chunking piece sizes of the writers]
           MaxCalls,               \* length of the history: WriteTo calls made one after the other
           LaterModes,             \* writer modes of the calls after the first (a subset of Modes)
-          FreshPerCall            \* TRUE: as written: every WriteTo allocates its own fmtWriter
+          FreshPerCall,           \* TRUE: as written: every WriteTo allocates its own fmtWriter
+          ShareChoices,           \* subset of BOOLEAN: TRUE: the next call of a history may go to the SAME writer
+          PerWriterWrapper        \* FALSE as written; TRUE: the wrapper (count, latch) is kept per destination writer
 
 \* <<>> (chunk sequences are enumerated) or the sequence of given chunk sequences.  A definition,
 \* not a constant substituted in the cfg: TLC evaluates it once (a cfg substitution
@@ -171,6 +210,9 @@ SinkWrite(mode, sticky, cap, failed, sz) ==
   ELSE IF mode = "silent"       \* at most cap bytes per Write, the rest is dropped, no error
        THEN [acc |-> IF sz <= cap THEN sz ELSE cap, fail |-> FALSE, cap |-> cap, failed |-> FALSE]
   ELSE IF sticky /\ failed THEN [acc |-> 0, fail |-> TRUE, cap |-> cap, failed |-> TRUE]
+  ELSE IF mode = "edge"         \* the Write that reaches the capacity already reports the error (full count if it fits exactly)
+       THEN IF sz < cap THEN [acc |-> sz, fail |-> FALSE, cap |-> cap - sz, failed |-> failed]
+            ELSE [acc |-> cap, fail |-> TRUE, cap |-> 0, failed |-> TRUE]
   ELSE IF sz <= cap THEN [acc |-> sz, fail |-> FALSE, cap |-> cap - sz, failed |-> failed]
   ELSE IF mode = "whole" THEN [acc |-> 0, fail |-> TRUE, cap |-> cap, failed |-> TRUE]
   ELSE [acc |-> cap, fail |-> TRUE, cap |-> 0, failed |-> TRUE]       \* "prefix"
@@ -194,6 +236,10 @@ RechunkClosed(mode, sticky, p, cap, failed, rest) ==
   IN IF rest = 0 THEN [acc |-> 0, fail |-> FALSE, cap |-> cap, failed |-> failed, writes |-> 0]
      ELSE IF mode = "never" THEN [acc |-> rest, fail |-> FALSE, cap |-> cap, failed |-> FALSE, writes |-> np]
      ELSE IF sticky /\ failed THEN [acc |-> 0, fail |-> TRUE, cap |-> cap, failed |-> TRUE, writes |-> 1]
+     ELSE IF mode = "edge"      \* the piece that reaches the capacity is piece ceil(cap / p) (the first if cap = 0)
+          THEN IF rest < cap THEN [acc |-> rest, fail |-> FALSE, cap |-> cap - rest, failed |-> failed, writes |-> np]
+               ELSE [acc |-> cap, fail |-> TRUE, cap |-> 0, failed |-> TRUE,
+                     writes |-> IF cap = 0 THEN 1 ELSE (cap + p - 1) \div p]
      ELSE IF mode = "whole"
           THEN LET a == IF cap \div p < f THEN cap \div p ELSE f IN
                IF a < f THEN [acc |-> a * p, fail |-> TRUE, cap |-> cap - a * p, failed |-> TRUE, writes |-> a + 1]
@@ -229,7 +275,8 @@ FwSkips(f) == LatchError /\ f.err # 0
 \* (add = what the wrapper adds to size for this call: the bytes the call accepted, as written)
 FwStepN(f, c, sz, add, fail) ==
   [n   |-> f.n + (IF CountAccepted THEN add ELSE sz),
-   err |-> IF KeepFirstError /\ f.err # 0 THEN f.err ELSE IF fail THEN c ELSE 0]
+   err |-> IF KeepFirstError /\ f.err # 0 THEN f.err
+           ELSE IF fail /\ (LatchOn = "err" \/ add < sz) THEN c ELSE 0]
 FwStep(f, c, sz, acc, fail) == FwStepN(f, c, sz, acc, fail)
 \* one call of the writer through method via (any of Write, WriteString, WriteByte, ReadFrom)
 ObsStepM(o, via, sz, acc, fail, writes) ==
@@ -264,10 +311,17 @@ PrefixDeliveredP(s)     == s.lcp = s.dlen /\ s.dlen = s.accepted /\ s.dlen <= s.
 NoWriteAfterFailureP(s) == s.failedAt # 0 => s.calls = s.failedAt
 NoFailEqualsStringP(s)  == s.failedAt = 0 => s.dlen = s.slen /\ s.n = s.slen /\ s.err = 0
 \* the writer model itself (test equipment): mode/capacity mean what they say
+\* (wr.failed0: the writer is shared with an earlier call of the history and failed there)
 FailsAtCapacityP(s, wr) ==
-  /\ (wr.mode = "never" \/ wr.cap0 >= s.slen) => s.failedAt = 0
+  LET stuck == wr.sticky /\ wr.failed0 IN
+  /\ wr.mode = "never" => s.failedAt = 0
+  /\ (wr.mode \in {"whole", "prefix"} /\ wr.cap0 >= s.slen /\ ~stuck) => s.failedAt = 0
   /\ (wr.mode \in {"whole", "prefix"} /\ wr.cap0 < s.slen) => s.failedAt # 0 /\ s.dlen <= wr.cap0
-  /\ (wr.mode = "prefix" /\ wr.cap0 < s.slen) => s.dlen = wr.cap0
+  /\ (wr.mode = "prefix" /\ wr.cap0 < s.slen /\ ~stuck) => s.dlen = wr.cap0
+  /\ stuck => s.dlen = 0 /\ (s.slen > 0 => s.failedAt # 0)
+  \* "edge": the print that reaches the capacity fails, with everything up to the capacity delivered
+  /\ (wr.mode = "edge" /\ wr.cap0 > s.slen /\ ~stuck) => s.failedAt = 0
+  /\ (wr.mode = "edge" /\ wr.cap0 <= s.slen /\ s.slen > 0 /\ ~stuck) => s.failedAt # 0 /\ s.dlen = wr.cap0
 
 ----------------------------------------------------------------------------
 (* Routes: how one print reaches the writer *)
@@ -327,11 +381,11 @@ Sources == IF Enumerating THEN {0} ELSE 1..Len(Given)
 Caps(src) == IF Enumerating \/ Given[src].all = 1 THEN 0..MaxTotal(src)
              ELSE {Given[src].k[i] : i \in DOMAIN Given[src].k}
 PiecesOf(src) == IF Enumerating THEN Pieces ELSE {Given[src].p[i] : i \in DOMAIN Given[src].p}
-NoWriter == [mode |-> "none", sticky |-> FALSE, piece |-> 0, cap |-> 0, cap0 |-> 0, failed |-> FALSE, src |-> 0, ifs |-> {}]
+NoWriter == [mode |-> "none", sticky |-> FALSE, piece |-> 0, cap |-> 0, cap0 |-> 0, failed |-> FALSE, failed0 |-> FALSE, src |-> 0, ifs |-> {}]
 
 Init == /\ stage = "cfg" /\ w = NoWriter /\ chunks = <<>> /\ kinds = <<>>
         /\ fw = FwInit /\ obs = ObsInit /\ delivered = <<>>
-        /\ sess = [call |-> 1, prevFailed |-> FALSE]
+        /\ sess = [call |-> 1, prevFailed |-> FALSE, shared |-> FALSE]
 
 \* enumeration of the writer behaviours, one step (not in Init: all workers share it)
 ChooseWriter ==
@@ -341,7 +395,8 @@ ChooseWriter ==
        /\ (m = "never" => ~st /\ c = 0)          \* no capacity, nothing to stick to
        /\ (m # "never" => c \in Caps(src))
        /\ (m = "silent" => ~st /\ p = 0)
-       /\ w' = [mode |-> m, sticky |-> st, piece |-> p, cap |-> c, cap0 |-> c, failed |-> FALSE, src |-> src, ifs |-> ifs]
+       /\ (m = "edge" => ~st)                    \* capacity 0 after its failure: sticky by construction
+       /\ w' = [mode |-> m, sticky |-> st, piece |-> p, cap |-> c, cap0 |-> c, failed |-> FALSE, failed0 |-> FALSE, src |-> src, ifs |-> ifs]
   /\ stage' = "run"
   /\ UNCHANGED <<chunks, kinds, fw, obs, delivered, sess>>
 
@@ -373,11 +428,22 @@ Return ==
 \* As written every call does fw := &fmtWriter{w: w}.  FreshPerCall = FALSE is a pooled fmtWriter
 \* whose size is reset but whose error latch is not: the latch of an earlier call (the error value
 \* of ANOTHER writer, -1) is still set when the next call starts.
+\* share: the next WriteTo gets the very writer of this call (two modules into one stream): the writer
+\* keeps what is left of its capacity and its failed flag; cap0 / failed0 are its state when the call
+\* starts.  Everything else restarts: the laws are per call.  PerWriterWrapper (deviation): the wrapper
+\* kept for this destination goes on counting and stays latched; the error it holds is, for the new
+\* call, a value no call of THIS WriteTo returned (-1).
 NextCall ==
   /\ stage = "done" /\ sess.call < MaxCalls
-  /\ stage' = "cfg" /\ w' = NoWriter /\ chunks' = <<>> /\ kinds' = <<>> /\ obs' = ObsInit /\ delivered' = <<>>
-  /\ fw' = IF FreshPerCall THEN FwInit ELSE [n |-> 0, err |-> IF fw.err = 0 THEN 0 ELSE -1]
-  /\ sess' = [call |-> sess.call + 1, prevFailed |-> sess.prevFailed \/ obs.failedAt # 0]
+  /\ chunks' = <<>> /\ kinds' = <<>> /\ obs' = ObsInit /\ delivered' = <<>>
+  /\ \E share \in ShareChoices :
+       /\ IF share
+          THEN /\ stage' = "run"
+               /\ \E src \in Sources : w' = [w EXCEPT !.cap0 = w.cap, !.failed0 = w.failed, !.src = src]
+          ELSE stage' = "cfg" /\ w' = NoWriter
+       /\ fw' = IF share /\ PerWriterWrapper THEN [n |-> fw.n, err |-> IF fw.err = 0 THEN 0 ELSE -1]
+                ELSE IF FreshPerCall THEN FwInit ELSE [n |-> 0, err |-> IF fw.err = 0 THEN 0 ELSE -1]
+       /\ sess' = [call |-> sess.call + 1, prevFailed |-> sess.prevFailed \/ obs.failedAt # 0, shared |-> share]
 
 Sizes == IF Enumerating THEN UnitSizes
          ELSE IF Len(chunks) < Len(GivenSeq(w.src)) THEN {GivenSeq(w.src)[Len(chunks) + 1]} ELSE {}
@@ -431,6 +497,13 @@ NeverFails   == ~(Done /\ obs.failedAt # 0)
 AlwaysFails  == ~(Done /\ obs.failedAt = 0 /\ Total > 0)
 NeverSkips   == ~(Done /\ obs.calls < Len(chunks))
 NoHistory    == ~(Done /\ sess.call > 1 /\ sess.prevFailed /\ obs.failedAt = 0 /\ Total > 0)
+\* ... with a shared writer (WriterShared.cfg): a recovering writer that failed in the call before takes
+\* the whole next module; a sticky one fails again at once; a third call on the writer of the first two;
+\* an error together with a full count
+NoSharedRecovery   == ~(Done /\ sess.shared /\ w.failed0 /\ ~w.sticky /\ obs.failedAt = 0 /\ Total > 0)
+NoSharedStuck      == ~(Done /\ sess.shared /\ w.failed0 /\ w.sticky /\ obs.failedAt = 1 /\ w.cap > 0)
+NoThirdSharedCall  == ~(Done /\ sess.shared /\ sess.call = 3 /\ obs.failedAt # 0 /\ obs.accepted > 0)
+NoFullCountError   == ~(Done /\ obs.failedAt # 0 /\ obs.accepted = obs.offered /\ Total > 0)
 \* ... on the direct route (WriterDirect.cfg): a print goes out in three pieces; a failure in a piece
 \* after the first; every optional method is used
 NoThreePieces      == ~(Done /\ obs.pieces >= 3)
